@@ -103,3 +103,99 @@ def _subtask_drop(rng, level, polled, malformed):
             opts = [0, 1, 2, 3, 4, 5]
         return ["a%d" % rng.choice(opts), "x"]
     return ["x"]
+
+
+# ------------------------------------------------------------------------------------------------
+# C18 scenario generator (input format of harness/crates/rtmock/src/bin/waitop.rs)
+# ------------------------------------------------------------------------------------------------
+BLOCKED = 4294967295
+
+
+def _completion(rng, kind, cancel=False, malformed=False):
+    if malformed and rng.chance(1, 5):
+        return rng.choice([3, 7, 19, 0x25, 5, 6, 35, 64 + 3])
+    if kind == "st":
+        return rng.choice([2, 3, 4] if cancel else [1, 2])
+    if kind == "fr":
+        return rng.choice([0, 2]) if cancel else 0
+    k = rng.choice([0, 0, 1] + ([2, 2] if cancel else []))
+    return k | (rng.choice([0, 1, 2, 4]) << 4)
+
+
+def gen_waitop_case(rng, malformed=False):
+    v = [rng.choice([1, 2, 2]), rng.choice([1, 2, 2])]
+    nops = rng.weighted([(1, 3), (2, 5), (3, 2)])
+    kinds = [rng.choice(["st", "sr", "sw", "fr"]) for _ in range(nops)]
+    phase = ["start"] * nops          # start | prog | done | gone
+    last = [None] * nops
+    level = [0] * nops                # subtasks: last status the host committed to
+    hasev = [False] * nops
+    acts = []
+    both_v2 = v[0] == 2 and v[1] == 2
+    for _ in range(rng.range(1, 14)):
+        o = rng.below(nops)
+        k = kinds[o]
+        t = rng.below(2)
+        if last[o] is not None and not (both_v2 or (malformed and rng.chance(1, 3))):
+            t = last[o]
+        elif last[o] is not None and rng.chance(2, 3):
+            t = last[o]
+        kind = rng.weighted([("p", 6), ("h", 4), ("w", 5), ("c", 2), ("d", 2)])
+        if kind == "p":
+            if phase[o] == "start":
+                if k == "st":
+                    a = rng.weighted([(None, 2), (0, 4), (1, 3), (2, 2)]) if not (malformed and rng.chance(1, 5)) else rng.choice([3, 4, 5, 9])
+                    acts.append("p%d.%d" % (t, o) + ("" if a is None else "=%d" % a))
+                    level[o] = a or 0
+                    phase[o] = "done" if a == 2 else "prog"
+                else:
+                    if rng.chance(1, 4):
+                        a = _completion(rng, k, False, malformed)
+                        acts.append("p%d.%d=%d" % (t, o, a)); phase[o] = "done"
+                    else:
+                        acts.append("p%d.%d" % (t, o) + ("=B" if rng.chance(1, 3) else "")); phase[o] = "prog"
+                last[o] = t
+            elif phase[o] == "prog" or (malformed and rng.chance(1, 2)):
+                acts.append("p%d.%d" % (t, o)); last[o] = t
+                if hasev[o] == "delivered":
+                    hasev[o] = False
+                    if not (k == "st" and level[o] < 2):
+                        phase[o] = "done"
+        elif kind == "h":
+            if phase[o] == "prog" and not hasev[o] or (malformed and rng.chance(1, 3)):
+                if k == "st":
+                    opts = [c for c in (1, 2) if c > level[o]]
+                    if not opts and not malformed:
+                        continue
+                    c = rng.choice(opts) if opts and not (malformed and rng.chance(1, 4)) else rng.choice([0, 1, 2, 3, 4])
+                    level[o] = c
+                    hasev[o] = "queued" if c >= 2 else False
+                    acts.append("h%d=%d" % (o, c))
+                else:
+                    acts.append("h%d=%d" % (o, _completion(rng, k, False, malformed))); hasev[o] = "queued"
+        elif kind == "w":
+            t = rng.below(2)
+            acts.append("w%d" % t + (".%d" % o if rng.chance(1, 3) else ""))
+            for i in range(nops):
+                if hasev[i] == "queued" and last[i] == t:
+                    hasev[i] = "delivered"; break
+        elif kind == "c":
+            if k != "st" and (phase[o] in ("start", "prog") or (malformed and rng.chance(1, 2))):
+                a = ""
+                if phase[o] == "prog" and rng.chance(1, 2) and not hasev[o]:
+                    a = "=%d" % _completion(rng, k, True, malformed)
+                acts.append("c%d.%d%s" % (t, o, a)); phase[o] = "done"
+        else:
+            if phase[o] != "gone" or (malformed and rng.chance(1, 3)):
+                a = ""
+                if phase[o] == "prog" and rng.chance(1, 2) and not hasev[o]:
+                    c = _completion(rng, k, True, malformed)
+                    if k == "st" and level[o] >= 1 and c == 3 and not malformed:
+                        c = 4
+                    a = "=%d" % c
+                acts.append("d%d.%d%s" % (t, o, a)); phase[o] = "gone"
+    if rng.chance(2, 3):   # tidy up: drop whatever is alive (under its own task)
+        for o in range(nops):
+            if phase[o] != "gone":
+                acts.append("d%d.%d" % (last[o] if last[o] is not None else 0, o))
+    return "%d %d | %s | %s" % (v[0], v[1], " ".join(kinds), " ".join(acts))
